@@ -1,7 +1,8 @@
 """C17 - plot appearance options are honoured in the produced figure (the chain, not the pixels)."""
 import ast
 
-from .. import q
+from .. import form, q, trace
+from ..form import Rat
 from ..core import AnalysisError, const, dotted, norm, calls_in, call_name, parent_map
 from . import c13
 
@@ -143,7 +144,35 @@ def check_adjust_axis(ctx, table):
             mod = norm(sub.slice.right)
             ctx.ob("C17.2", "verif.output.Output._get_plot_options", mod == "len(%s)" % lst, "%s is cycled modulo its own length" % lst, loc=prog.loc(m, sub),
                    msg="%s is indexed modulo %s: with lists of different lengths the wrong entry is used or IndexError is raised" % (lst, mod))
-    ctx.floor("C17.2", 17)
+    # -nogrid: matplotlib's Axes.grid() switches the grid ON whenever line properties are passed (whatever its first argument), so a
+    # grid call that carries -gc/-gs/-gw properties must not be reachable when self.grid is false
+    eva = trace.trace(prog, site)
+    gcalls = [e for e in trace.calls(eva) if e["name"] in ("ax.grid",)]
+    ctx.need(gcalls, "%s: no ax.grid call" % site)
+    for e in gcalls:
+        guarded = any(isinstance(c, Rat) and c.key() == "$self.grid" and pol for c, pol in e["conds"])
+        styled = bool(e["node"].keywords)
+        first = e["args"][0] if e["args"] else None
+        on = first is None or (isinstance(first, Rat) and first.key() in ("str:'on'()", "$True", "1"))
+        ok = guarded or (not styled and not on)
+        ctx.ob("C17.2", site, ok, "ax.grid(...) with grid properties is reached only when the grid is enabled (-nogrid wins over -gc/-gs/-gw)", loc=prog.loc(m, e["node"]),
+               msg="ax.grid(%s) is called %s even when self.grid is false: matplotlib turns the grid on whenever line properties are supplied, so "
+                   "-nogrid together with -gc/-gs/-gw draws the grid" % (norm(e["node"])[8:60], "with style keywords" if styled else "switching it on"))
+    # semantic form: the i-th line gets entry i mod len(list) of EACH style list, with i the line number itself
+    ev = trace.trace(prog, "verif.output.Output._get_plot_options")
+    i_ = Rat.sym("i")
+    for key, attr in (("lw", "lw"), ("ms", "ms"), ("color", "line_colors"), ("ls", "line_styles"), ("marker", "markers")):
+        lst = Rat.sym("self." + attr)
+        want = form.apply("getitem", [lst, form.apply("mod", [i_, form.apply("len", [lst])])])
+        sts = [e for e in trace.stores(ev, "options") if len(e["indices"]) == 1 and isinstance(e["indices"][0], Rat)
+               and e["indices"][0].key() == "str:'%s'()" % key and isinstance(e["value"], Rat) and not e["value"].key().startswith("str:")]
+        ok = bool(sts) and all(e["value"].equals(want) for e in sts)
+        ctx.ob("C17.2", "verif.output.Output._get_plot_options", ok, "line i gets %s = self.%s[i %% len(self.%s)]" % (key, attr, attr),
+               loc=prog.loc(m, sts[0]["node"]) if sts else prog.loc(m, f2),
+               msg="plot option '%s' of line i is %s, expected self.%s[i %% len(self.%s)]: the list given with the option is not cycled over its own "
+                   "length independently of the other style options" % (key, str(sts[0]["value"])[:120] if sts else "not set", attr, attr),
+               sample={"rule": "C17.2", "key": key, "value": str(sts[0]["value"])[:100] if sts else None})
+    ctx.floor("C17.2", 23)
     # siblings
     for c in output_classes(prog):
         f3 = c.methods.get("_adjust_axes")
